@@ -47,7 +47,7 @@ struct PipelineRecord {
     stages: Vec<StageData>,
     optimized_cycles: Option<Vec<Vec<Vec<String>>>>,
     optimized_cached: Vec<(usize, i64, i64)>, // (type, violation, counter) cached in the optimiser's output
-    ls_steps: Vec<(Vec<i64>, Option<Vec<i64>>, Vec<i64>, String)>, // objective, previous, getters, canon digest
+    ls_steps: Vec<(Vec<i64>, Option<Vec<i64>>, Vec<i64>, String, Option<Vec<i64>>)>, // objective, previous, getters, canon digest, REF-recomputed vector
     ls_last_canon: Option<String>,
     fixpoint_steps: Option<usize>,
     fixpoint_same: Option<bool>,
@@ -130,8 +130,14 @@ fn run_server_pipeline(instance: Value, inst: RefInstance, fixpoint: bool) -> Pi
     for st in &steps {
         let sch = st.solution.get_schedule();
         let getters = ad.cached(sch).vector();
-        let c = ad.sched_data(sch).map(|sd| canon(&sd, true, true)).unwrap_or_else(|e| e);
-        rec.ls_steps.push((st.objective.clone(), st.previous_objective.clone(), getters, digest_str(&c)));
+        let sdata = ad.sched_data(sch);
+        let truth = sdata
+            .as_ref()
+            .ok()
+            .and_then(|sd| inst.evaluate(sd, Some(ad.conv)).ok())
+            .map(|r| vec![r.unserved as i64, r.violation, r.vehicles as i64, r.costs as i64]);
+        let c = sdata.map(|sd| canon(&sd, true, true)).unwrap_or_else(|e| e);
+        rec.ls_steps.push((st.objective.clone(), st.previous_objective.clone(), getters, digest_str(&c), truth));
         let txt = st.solution.get_print_text();
         let kind = txt.split_whitespace().next().unwrap_or("?").to_string();
         rec.swap_kinds.insert(kind);
@@ -394,7 +400,16 @@ pub fn exec_case(case: &Value, want: &BTreeSet<String>) -> RunOutcome {
     if wants(want, "C08") || wants(want, "C16") {
         let start_getters = stage("start").map(|s| s.cached.vector());
         let mut prev: Option<Vec<i64>> = start_getters.clone();
-        for (k, (obj, prev_obj, getters, _)) in rec.ls_steps.iter().enumerate() {
+        // the same order on independently recomputed values: a step must improve the schedule itself,
+        // not only its cached figures
+        let mut prev_truth: Option<Vec<i64>> = stage("start").and_then(|s| s.sd.as_ref().ok()).and_then(|sd| inst.evaluate(sd, rec.conv).ok()).map(|r| vec![r.unserved as i64, r.violation, r.vehicles as i64, r.costs as i64]);
+        for (k, (obj, prev_obj, getters, _, truth)) in rec.ls_steps.iter().enumerate() {
+            if let (Some(t), Some(pt)) = (truth, &prev_truth) {
+                if !lex_lt(t, pt) {
+                    ro.violations.push(viol("C08", "C08.recomputed_objective_not_improving", format!("step {}: recomputed (unserved, violation, vehicles, costs) {:?} is not lexicographically below that of the previous schedule {:?}", k + 1, t, pt)));
+                }
+            }
+            prev_truth = truth.clone();
             if obj.len() != 4 {
                 ro.violations.push(viol("C08", "C08.levels", format!("step {}: objective has {} levels", k + 1, obj.len())));
                 continue;
